@@ -154,6 +154,10 @@ type World struct {
 	AEAD   *probe.AEAD
 	Led    *probe.Ledger
 	Suffix string // when non-empty factories see a region-suffixing metastore
+	// Backend names the metastore implementation behind MS ("memory", or a plug-in over a fake: see NewOn); with a
+	// plug-in, Mem mirrors every accepted insert.
+	Backend string
+	plug    *plug
 
 	shadow map[string]map[int64]*appencryption.EnvelopeKeyRecord
 	flips  []Flip
@@ -270,6 +274,9 @@ func (w *World) Revoke(id string, created int64, at time.Time) bool {
 		s.Revoked = true
 	}
 	w.flips = append(w.flips, Flip{id, created, at})
+	if w.plug != nil && !w.plug.tbl.SetRevoked(id, created) {
+		panic(fmt.Sprintf("back end %s: no item (%s,%d) to revoke", w.plug.name, id, created))
+	}
 	return true
 }
 
@@ -280,6 +287,13 @@ func (w *World) Flips() []Flip { return append([]Flip(nil), w.flips...) }
 // change (except for revocations made by the harness itself) and never disappear. It returns a description
 // of the first discrepancy, or "".
 func (w *World) Audit() string {
+	if a := w.auditMem(); a != "" {
+		return a
+	}
+	return w.auditPlug()
+}
+
+func (w *World) auditMem() string {
 	w.Mem.RLock()
 	defer w.Mem.RUnlock()
 	for id, m := range w.Mem.Envelopes {
